@@ -95,10 +95,14 @@ func runRoundsUntilMatch(testMetadata TestTopologyMetadata, controller *Controll
 
 func runSchedulerOneRound(testMetadata *TestTopologyMetadata, controller *Controller, ssn **framework.Session) {
 	*ssn = test_utils.BuildSession(testMetadata.TestTopologyBasic, controller)
+	verifEndRound := verifTraceRound(testMetadata.Name, *ssn)
 	for _, action := range schedulerActions {
 		log.InfraLogger.SetAction(string(action.Name()))
+		verifTraceAction(string(action.Name()), true)
 		action.Execute(*ssn)
+		verifTraceAction(string(action.Name()), false)
 	}
+	verifEndRound()
 
 	for _, jobMetadata := range testMetadata.Jobs {
 		jobId := common_info.PodGroupID(jobMetadata.Name)
